@@ -275,9 +275,9 @@ def r20_3(run, model):
 def run(run, model):
     mir = Mir(run.facts)
     g = Graph(mir)
-    r20_1(run, model, mir, g)
-    r20_2(run, model)
-    r20_3(run, model)
+    run.try_rule(r20_1, model, mir, g)
+    run.try_rule(r20_2, model)
+    run.try_rule(r20_3, model)
     unres = sum(g.unresolved.values())
     run.assume(f"calls through function pointers / dyn objects are not followed ({unres} indirect calls in the workspace; none on the hover path is known to reach panicking code)")
     run.assume("arithmetic overflow and Vec/arena indexing are not ledgered; rowan and line-index internals are outside the repository")
